@@ -50,9 +50,17 @@
   quantifier "or out-of-band (child wait status)"                exec_exit_admissible
   the whole statement, both channels                             faithful_exit_admissible
 
+  "a command that terminates abnormally never counts as          sigchld_ignored_status_lost / sigchld_ignored_exit0 (OPEN finding
+   success", started with SIGCHLD inherited as ignored            C08-SIGCHLD-IGNORED-STATUS-LOST: pipecmd_wait's waitpid fails, status
+                                                                 word 0: FALSE of the unchanged code for every command that ran),
+                                                                 sigchld_restored_faithful (repaired: dsh() restores SIG_DFL; the
+                                                                 channel is then exactly `execScript`, codes and signals survive)
+                                                                 (Dsh/ExitChld.lean; driven on the real binary by vlib/exitchld.py)
+
   NOT PROVED / NOT MODELLED:
-    * `pipecmd_wait` / `waitpid` (that exec_destroy blocks until the child is gone and returns its real status): real
-      children in the harness (`xd`, late-exit children) and the real binary, no theorem.
+    * `pipecmd_wait` / `waitpid`: that exec_destroy blocks until the child is gone (real children in the harness (`xd`,
+      late-exit children) and the real binary, no theorem); the status word it delivers is modelled only as far as the
+      disposition of SIGCHLD decides it (Dsh/ExitChld.lean: ECHILD leaves 0).
     * -k: the transition system of Dsh/ExitKill.lean is the fanout-UNCONSTRAINED one (any target may be started at any
       time); the executions of the real dispatcher are a subset, so the every-schedule theorems cover them, but "at most
       fanout siblings are in flight when the run is ended" is C04's statement, not repeated here.  Two threads calling
@@ -83,6 +91,7 @@ import PdshVerif.Dsh.FanExec
 import PdshVerif.Opt.Command
 import PdshVerif.Dsh.ExitKillLemmas
 import PdshVerif.Dsh.ExitRefuse
+import PdshVerif.Dsh.ExitChld
 
 namespace PdshVerif.C08
 open PdshVerif PdshVerif.Dsh PdshVerif.Dsh.Exit
@@ -285,6 +294,30 @@ theorem abnormal_nonzero (fx : Fixes) (hd7 : fx.d7 = true) (s : Nat) (h1 : 1 ≤
     have : s % 128 % 128 = s := by omega
     simp [this]
   exact ⟨hrc, by rw [hrc]; omega⟩
+
+/-- OPEN FINDING C08-SIGCHLD-IGNORED-STATUS-LOST, every variant of the other repairs: started with SIGCHLD inherited as
+    ignored (and dsh() not restoring the default), the code of EVERY target whose command ran is 0 — whatever it
+    returned, whichever signal killed it (`pipecmd_wait`: waitpid fails with ECHILD, the status word stays 0) -/
+theorem sigchld_ignored_status_lost (fx : Fixes) (e : ChldEnv) (h : e.ignored = true) (o : Outcome)
+    (hran : o ≠ .connectFailed) : (hostOf fx (execScriptChld fx e o)).rc = 0 :=
+  chld_ignored_status_lost fx e h o hran
+
+/-- ... so `pdsh -S` (and `-S -k`) exits 0 for a command that returned 3 or was killed by signal 9: FALSE of the
+    property text, in every variant -/
+theorem sigchld_ignored_exit0 (fx : Fixes) (e : ChldEnv) (h : e.ignored = true) (k : Bool) :
+    mainExit fx ⟨true, k⟩ (.started [hostOf fx (execScriptChld fx e (.exited 3))]) = 0 ∧
+    mainExit fx ⟨true, k⟩ (.started [hostOf fx (execScriptChld fx e (.killed 9))]) = 0 :=
+  chld_ignored_exit0 fx e h k
+
+/-- REPAIRED (dsh() restores SIG_DFL for SIGCHLD): whatever disposition was inherited, the out-of-band channel is
+    exactly the one all other theorems are about; a returned code c is the target's code, and (with D7) a signal s is
+    reported as 128+s -/
+theorem sigchld_restored_faithful (fx : Fixes) (e : ChldEnv) (hr : e.restored = true) :
+    (∀ o, execScriptChld fx e o = execScript fx o) ∧
+    (∀ c, c ≤ 255 → (hostOf fx (execScriptChld fx e (.exited c))).rc = c) ∧
+    (fx.d7 = true → ∀ s, 1 ≤ s → s ≤ 64 → (hostOf fx (execScriptChld fx e (.killed s))).rc = 128 + s) :=
+  ⟨execScriptChld_eq fx e (restored_not_ignored e hr), fun c hc => chld_restored_code fx e hr c hc,
+   fun hd7 s h1 h2 => chld_restored_abnormal_nonzero fx hd7 e hr s h1 h2⟩
 
 /-- FALSE of the unchanged code: the killed child counts as code 0; `pdsh -S` exits 0 and `-k` does not fire -/
 theorem abnormal_nonzero_unchanged_false :
